@@ -1,5 +1,6 @@
 """Collection of classes that are used by the user to define the model and grids."""
 
+import math
 from abc import ABC, abstractmethod
 from dataclasses import dataclass, fields, is_dataclass
 from typing import Any
@@ -131,6 +132,13 @@ class LogspaceGrid(ContinuousGrid):
 
     """
 
+    def __post_init__(self) -> None:
+        super().__post_init__()
+        if self.start <= 0:
+            raise GridInitializationError(
+                "start must be greater than 0 for a logarithmic grid"
+            )
+
     def to_jax(self) -> Array:
         """Convert the grid to a Jax array."""
         return grid_helpers.logspace(self.start, self.stop, self.n_points)
@@ -247,6 +255,12 @@ def _validate_continuous_grid(
     if not valid_stop_type:
         error_messages.append("stop must be a scalar int or float value")
 
+    if valid_start_type and not _is_finite(start):
+        error_messages.append("start must be finite")
+
+    if valid_stop_type and not _is_finite(stop):
+        error_messages.append("stop must be finite")
+
     if not isinstance(n_points, int) or n_points < 1:
         error_messages.append(
             f"n_points must be an int greater than 0 but is {n_points}",
@@ -258,3 +272,11 @@ def _validate_continuous_grid(
     if error_messages:
         msg = format_messages(error_messages)
         raise GridInitializationError(msg)
+
+
+def _is_finite(value: float) -> bool:
+    """Check whether a scalar int or float is finite (and representable as a float)."""
+    try:
+        return math.isfinite(value)
+    except OverflowError:
+        return False
